@@ -1,5 +1,5 @@
 #!/usr/bin/env python3
-"""Re-run every kept seeded change against the current /repo HEAD:  tools/seeded_matrix.py [jobs] [id-prefix]
+"""Re-run every kept seeded change against the current /repo HEAD:  [MATRIX_IDS=a,b] tools/seeded_matrix.py [jobs] [id-prefix]
 
 For each seeded/<id>/ (patch.diff, demo.py, meta.json): scratch worktree of /repo HEAD, demo passes unpatched, patch
 applies, the repository's tests pass, demo fails patched, and the check(s) named in meta.json ("checks") are run with
@@ -41,7 +41,15 @@ def one(sid):
 
 ids = sorted(x for x in os.listdir(os.path.join(ROOT, "seeded")) if os.path.isdir(os.path.join(ROOT, "seeded", x))
              and x.startswith(prefix))
+only = os.environ.get("MATRIX_IDS")
 out = {}
+if only:
+    # re-run a selection and merge it into the stored matrix
+    ids = [x for x in ids if x in only.split(",")]
+    try:
+        out = json.load(open(os.path.join(ROOT, "seeded", "MATRIX.json")))["results"]
+    except Exception:  # noqa: BLE001
+        out = {}
 with concurrent.futures.ThreadPoolExecutor(max_workers=jobs) as ex:
     for sid, res in ex.map(one, ids):
         out[sid] = res
